@@ -21,6 +21,10 @@ def run(ctx):
     # whole-GPU nominations of one cycle on top of each other (victims moved by one statement, taken again by the next)
     st_cluster.run_stage(ctx, ["C02_NominationFits", "C02_Exclusive"], [("abandon", n // 2)], tag="-abandon")
     st_cluster.run_directed(ctx, ["C02_NominationFits"], "C02")
+    # every simulation step of real cycles: the shared-GPU maps of every node after each virtual operation (C02 node predicates)
+    import st_cycleacct
+    k = 1 if ctx.quick else 10
+    st_cycleacct.run_stage(ctx, PREFIXES, [("fraction", 120 * k), ("sharers", 120 * k), ("mixed", 80 * k), ("frag", 40 * k)], procs=8, tag="-c02")
     if os.path.exists(os.path.join(os.path.dirname(__file__), "st_nodeacct.READY")):
         import st_nodeacct
         st_nodeacct.run_stage(ctx, ["C02_"])
@@ -29,6 +33,10 @@ def run(ctx):
 
 
 def replay(ctx, obj):
+    if obj.get("replay", {}).get("module") == "NodeAcctCycleTrace":
+        import st_cycleacct
+        st_cycleacct.replay_stage(ctx, obj, PREFIXES)
+        return
     if obj.get("replay", {}).get("module") != st_cluster.MODULE:
         import st_nodeacct
         st_nodeacct.replay_stage(ctx, obj, PREFIXES)
